@@ -51,6 +51,7 @@ func checkC07(c *Ctx) {
 	c07Seq(c, dec, enc)
 	c07IV(c)
 	c07Deliver(c)
+	c07ByVersion(c)
 	// c07Bounds(c) -- record-layer buffer bounds: needs heap post-conditions, not armed
 }
 
@@ -748,4 +749,98 @@ func c07Bounds(c *Ctx) {
 	}
 	st := bidx(c, "B-IDX", fs, map[string]string{})
 	c.Notes = append(c.Notes, fmt.Sprintf("B-IDX: %d sites, %d compiler, %d LinBounds, %d unproven", st.sites, st.compiler, st.lin, st.unproved))
+}
+
+// c07ByVersion: the version-dependent choices of the CBC record format are evaluated for every implemented
+// version (SSL 3.0, GMSSL 0x0101, TLS 1.0-1.2): only SSL 3.0 may use the SSL 3.0 padding check (which looks at the
+// last padding byte only); every other version, GMSSL included, checks all padding bytes; and the sender and the
+// receiver agree on which versions carry an explicit per-record IV (GMSSL and TLS >= 1.1).
+func c07ByVersion(c *Ctx) {
+	rule := "G-C07-version"
+	dec := c.Fn("gmtls", "(*halfConn).decrypt")
+	wr := c.Fn("gmtls", "(*Conn).writeRecordLocked")
+	if dec == nil || wr == nil {
+		c.Missing(rule, "gmtls.(*halfConn).decrypt / (*Conn).writeRecordLocked", "methods", "not found")
+		return
+	}
+	vers := []string{"VersionSSL30", "VersionGMSSL", "VersionTLS10", "VersionTLS11", "VersionTLS12"}
+	calledUnder := func(f *ssa.Function, cut map[edge]bool, name string) bool {
+		seen := reach([]*ssa.BasicBlock{f.Blocks[0]}, cut)
+		for _, call := range callsNamedIn(f, name) {
+			if seen[call.Block()] {
+				return true
+			}
+		}
+		return false
+	}
+	// explicit IV: the value of explicitIVLen at the uses after the version test. A version has an explicit IV when,
+	// with its branches resolved, the block that assigns the block size to explicitIVLen is reachable.
+	explicitUnder := func(f *ssa.Function, cut map[edge]bool) (bool, bool) {
+		seen := reach([]*ssa.BasicBlock{f.Blocks[0]}, cut)
+		found, yes := false, false
+		for _, ifi := range ifsOf(f) {
+			bo, ok := ifi.Cond.(*ssa.BinOp)
+			if !ok {
+				continue
+			}
+			isV := func(v ssa.Value) bool {
+				ld, ok := v.(*ssa.UnOp)
+				if !ok {
+					return false
+				}
+				fa, ok := ld.X.(*ssa.FieldAddr)
+				return ok && fieldName(fa.X.Type(), fa.Field) == "version"
+			}
+			if !isV(bo.X) {
+				continue
+			}
+			if _, isK := constInt(bo.Y); !isK {
+				continue
+			}
+			// the test that selects the padding routine is not an explicit-IV test
+			padSel := false
+			for _, sblk := range ifi.Block().Succs {
+				for _, in := range sblk.Instrs {
+					if call, ok := in.(*ssa.Call); ok && (calleeNamed(call, "extractPadding") || calleeNamed(call, "extractPaddingSSL30")) {
+						padSel = true
+					}
+				}
+			}
+			if padSel {
+				continue
+			}
+			found = true
+			b := ifi.Block()
+			// the "explicit IV" successor is the one taken when the test holds (>= TLS11 / == GMSSL)
+			if seen[b] && !cut[edge{b, b.Succs[0]}] {
+				yes = true
+			}
+		}
+		return yes, found
+	}
+	for _, vn := range vers {
+		v, okc := pkgConst(c, "gmtls", vn)
+		if !okc {
+			c.Missing(rule, "gmtls."+vn, "constant", "not found")
+			continue
+		}
+		cut := fieldValueCut(dec, "version", v)
+		c.Evals++
+		full := calledUnder(dec, cut, "extractPadding")
+		ssl := calledUnder(dec, cut, "extractPaddingSSL30")
+		if vn == "VersionSSL30" {
+			c.Check(full || ssl, rule, fname(dec), "CBC padding is checked for "+vn, "", "no padding check is reachable for this version", dec.Pos())
+		} else {
+			c.Check(full && !ssl, rule, fname(dec), "CBC padding of "+vn+" records is checked byte by byte", "", fmt.Sprintf("for %s (%#x) the receiver uses the SSL 3.0 padding routine, which only looks at the last padding byte (full check reachable: %v, SSL 3.0 check reachable: %v): bytes of the padding can be modified without the record being rejected", vn, v, full, ssl), dec.Pos())
+		}
+		c.Evals++
+		rx, f1 := explicitUnder(dec, cut)
+		tx, f2 := explicitUnder(wr, fieldValueCut(wr, "version", v))
+		if !f1 || !f2 {
+			c.Undecided(rule, fname(dec), "explicit-IV decision for "+vn, "the version test that decides whether records carry an explicit IV was not found on one side", dec.Pos())
+			continue
+		}
+		want := vn == "VersionGMSSL" || vn == "VersionTLS11" || vn == "VersionTLS12"
+		c.Check(rx == tx && rx == want, rule, fname(dec), "explicit CBC IV for "+vn+": sender and receiver agree", "", fmt.Sprintf("for %s the sender writes an explicit IV: %v, the receiver expects one: %v, the protocol requires: %v", vn, tx, rx, want), dec.Pos())
+	}
 }
